@@ -45,6 +45,9 @@ type Redis struct {
 	seq   int
 	// Intercept is consulted before every operation (ENV choice points).
 	Intercept func(c *StoreCall) *StoreFault
+	// Canon, if set, renders a stored value canonically for the calling thread's observation
+	// hash (the raw bytes contain real-clock noise: token expiry computed by dependencies).
+	Canon func(key string, val []byte) string
 }
 
 // NewRedis starts a miniredis on loopback.
@@ -79,7 +82,7 @@ type hookClient struct {
 }
 
 func (r *Redis) begin(op, key string) (*StoreCall, *StoreFault) {
-	sched.Point("store:" + op)
+	schedPoint("store:" + op)
 	r.mu.Lock()
 	r.seq++
 	c := &StoreCall{Seq: r.seq, Op: op, Key: key, Thread: sched.CurrentID()}
@@ -88,7 +91,7 @@ func (r *Redis) begin(op, key string) (*StoreCall, *StoreFault) {
 	r.mu.Unlock()
 	if icpt != nil {
 		if f := icpt(c); f != nil {
-			sched.Observe("store-fault:" + op + ":" + f.Kind)
+			schedObserve("store-fault:" + op + ":" + f.Kind)
 			return c, f
 		}
 	}
@@ -100,7 +103,7 @@ func obs(op string, err error, extra string) {
 	if err != nil {
 		e = err.Error()
 	}
-	sched.Observe("store:" + op + ":" + e + ":" + extra)
+	schedObserve("store:" + op + ":" + e + ":" + extra)
 }
 
 func (h *hookClient) Get(ctx context.Context, key string) ([]byte, error) {
@@ -122,7 +125,11 @@ func (h *hookClient) Get(ctx context.Context, key string) ([]byte, error) {
 			v = f.Mutate(v)
 		}
 	}
-	obs("GET", err, fmt.Sprintf("%x", fnvb(v)))
+	if h.r.Canon != nil && err == nil {
+		obs("GET", err, h.r.Canon(key, v))
+	} else {
+		obs("GET", err, fmt.Sprintf("%x", fnvb(v)))
+	}
 	return v, err
 }
 
@@ -189,7 +196,11 @@ func (l *hookLock) Obtain(ctx context.Context, exp time.Duration) error {
 	if f != nil && f.AfterErr != nil {
 		return f.AfterErr
 	}
-	obs("OBTAIN", err, "")
+	if err != sessions.ErrLockNotObtained {
+		// a failed poll leaves the caller where it was (top of its retry loop): it is not folded
+		// into the observation hash, so that polling does not create new states
+		obs("OBTAIN", err, "")
+	}
 	return err
 }
 
